@@ -92,7 +92,8 @@ class ProcessWorker(Worker):
         else:
             try:
                 self._ctrl_comms.parent_end.put('terminate')
-                self._ctrl_comms.parent_end.get()
+                if self._ctrl_comms.parent_end.poll(timeout): # the control thread acknowledges by closing its end, but a child that cannot run (stopped, stuck in C code) never will
+                    self._ctrl_comms.parent_end.get()
             except (BrokenPipeError, queue.Empty):
                 pass
 
